@@ -123,16 +123,18 @@ def filter_chain():
         from coco.b09 import elements as E, visitors as V
         proc = b09mini.load(ecbsig.library_text(), "ecb_read_filter")
         items = [3.14159265, .0001234567, 2.5, -7.0, 1.0, 1234.5678, 1e-07, 0.0, 65535.0, 0.1]
-        d = E.BasicDataStatement(E.BasicExpressionList([E.BasicLiteral(x) for x in items] + [E.BasicLiteral("")], parens=False))
+        hexes = ["FFFF", "8000", "7FFF", "ABCD", "0", "FF", "10000", "FFFFFF"]
+        d = E.BasicDataStatement(E.BasicExpressionList([E.BasicLiteral(x) for x in items] + [E.HexLiteral(h) for h in hexes] + [E.BasicLiteral("")], parens=False))
         V.BasicReadStatementPatcherVisitor().visit_data_statement(d)
         bad = []
+        items = items + [float(int(h, 16)) for h in hexes]      # Color BASIC &H constants are unsigned
         for x, lit in zip(items + [None], d.exp_list.exp_list):
             s = lit.literal
             got = proc.run(s, 99.0)[1] if isinstance(s, str) else "not a string: %r" % (s,)
             want = 0.0 if x is None else x
             if got != want:
                 bad.append(dict(item=x, string=s, read=got))
-        return [ob("read-filter/patched DATA item reads back as its value", not bad, "value preserved through str -> VAL", bad or "%d items" % len(items), bounded="ten numeric items and one empty item")]
+        return [ob("read-filter/patched DATA item reads back as its value", not bad, "value preserved through str -> VAL", bad or "%d items" % len(items), bounded="ten numeric items, eight hex items and one empty item")]
     return guarded("read-filter/chain", run)
 
 
